@@ -113,6 +113,28 @@ theorem palindromic_reversible {α : Type} (φ : Pos → Int → α → α)
   have := runFlow_neg_reverse φ hinv s x
   rwa [hpal] at this
 
+/-- **Conservation along a whole step**: a quantity (norm, energy) that every local flow leaves
+    unchanged is unchanged by any schedule — by induction over the trace.  The per-update facts are
+    `local_update_conserves_norm/energy` (Props.lean). -/
+theorem runFlow_conserves {α β : Type} (φ : Pos → Int → α → α) (F : α → β)
+    (hF : ∀ p t x, F (φ p t x) = F x) (s : Sched) (x : α) : F (runFlow φ s x) = F x := by
+  induction s generalizing x with
+  | nil => rfl
+  | cons pt rest ih =>
+    have : runFlow φ (pt :: rest) x = runFlow φ rest (φ pt.1 pt.2 x) := rfl
+    rw [this, ih, hF]
+
+/-- A quantity that no local flow increases (fixed-rank projections, truncations) is not increased
+    by any schedule. -/
+theorem runFlow_monotone {α : Type} (φ : Pos → Int → α → α) (F : α → Int)
+    (hF : ∀ p t x, F (φ p t x) ≤ F x) (s : Sched) (x : α) : F (runFlow φ s x) ≤ F x := by
+  induction s generalizing x with
+  | nil => exact Int.le_refl _
+  | cons pt rest ih =>
+    have : runFlow φ (pt :: rest) x = runFlow φ rest (φ pt.1 pt.2 x) := rfl
+    rw [this]
+    exact Int.le_trans (ih _) (hF _ _ _)
+
 /-- Two adjacent updates of the same position compose additively when the flow is a one-parameter
     group: the full step on the last node is two half steps, which is what makes the second-order
     schedule a palindrome. -/
